@@ -161,9 +161,10 @@ func buildReference(rep *Report, s Setup, g *Gen, dir string, from, to uint32, b
 }
 
 func crashActs() Acts {
-	// a short chain that crosses the transaction, bank and 2.0 eras; no snapshot heights
-	return Acts{Pegnet: 0, GradingV2: 3, TxConv: 5, PegPricing: 8, OneWayFCT: 11, ConvLimit: 14, PegFloat: 14, RCDE: 20, V4: 20,
-		V20: 26, DevRewards: 70, SprSig: 70, OneWaySmall: 80, V202: 80, V204: 90, V204Burn: 95, PIP10: 100}
+	// a short chain that crosses the transaction, bank and 2.0 eras, the old-burn zeroing (140),
+	// a snapshot + staking + developer payout height (144) and the 2.0.2 zeroing (150)
+	return Acts{Pegnet: 110, GradingV2: 113, TxConv: 115, PegPricing: 118, OneWayFCT: 121, ConvLimit: 124, PegFloat: 124, RCDE: 130, V4: 130,
+		V20: 136, DevRewards: 140, SprSig: 140, OneWaySmall: 150, V202: 150, V204: 160, V204Burn: 165, PIP10: 170}
 }
 
 func scenCrash(rep *Report, tier string, seed int64) {
@@ -171,8 +172,9 @@ func scenCrash(rep *Report, tier string, seed int64) {
 	defer os.RemoveAll(dir)
 	g := NewGen(seed, 4, 1)
 	s := Setup{Acts: crashActs(), AvgPeriod: 8, SyncVersion: mainnetSyncVersion}
-	tip := uint32(34)
-	ref, ok := buildReference(rep, s, g, dir, 1, tip, func(w *World, h uint32) *BlockSpec { return w.BuildBlock(h) })
+	tip := uint32(152)
+	first := s.Acts.Pegnet + 1
+	ref, ok := buildReference(rep, s, g, dir, first, tip, func(w *World, h uint32) *BlockSpec { return w.BuildBlock(h) })
 	if !ok {
 		return
 	}
@@ -205,6 +207,30 @@ func scenCrash(rep *Report, tier string, seed int64) {
 		for i := 0; i < n; i++ {
 			if sp.commit-sp.begin > 2 {
 				points = append(points, sp.begin+1+r.Intn(sp.commit-sp.begin-1))
+			}
+		}
+	}
+	// statements issued between two block transactions (through the pool, outside any block)
+	for i := 0; i+1 < len(spans); i++ {
+		for n := spans[i].after + 1; n < spans[i+1].begin; n++ {
+			if tier == "thorough" || r.Intn(8) == 0 {
+				points = append(points, n)
+			}
+		}
+	}
+	spanOf := func(h uint32) (txSpan, bool) {
+		i := int(h) - int(first)
+		if i < 0 || i >= len(spans) {
+			return txSpan{}, false
+		}
+		return spans[i], true
+	}
+	// the heights with one-time or periodic work are always covered, densely
+	for _, h := range []uint32{s.Acts.DevRewards, 144, s.Acts.V202} {
+		if sp, ok := spanOf(h); ok {
+			addSpan(sp, tier == "thorough")
+			for n := sp.begin - 4; n < sp.begin; n++ { // whatever runs right before BEGIN
+				points = append(points, n)
 			}
 		}
 	}
